@@ -9,6 +9,9 @@ pub fn gen_stream(rng: &mut Rng) -> Vec<u8> {
     let mut s = Vec::new();
     if rng.chance(1, 4) {
         s.extend_from_slice(b"HTTP/1.1 100 Continue\r\n\r\n");
+    } else if rng.chance(1, 8) {
+        // a bare informational response other than 100 (no fields, with or without a reason phrase)
+        s.extend_from_slice(*rng.pick(&[&b"HTTP/1.1 102 Processing\r\n\r\n"[..], &b"HTTP/1.1 101 \r\n\r\n"[..], &b"HTTP/1.0 199\r\n\r\n"[..], &b"HTTP/1.1 103 Early Hints\r\n\r\n"[..]]));
     }
     let status = *rng.pick(&[200u16, 200, 204, 300, 301, 302, 303, 304, 305, 307, 308, 399, 403, 404, 500, 101, 199, 999]);
     let ver = if rng.chance(1, 5) { "HTTP/1.0" } else { "HTTP/1.1" };
@@ -87,6 +90,10 @@ pub fn gen_request(rng: &mut Rng) -> String {
     if rng.chance(1, 3) { hdrs.push(("x-a".into(), b"1".to_vec())); }
     if rng.chance(1, 3) { hdrs.push(("authorization".into(), b"secret".to_vec())); }
     if rng.chance(1, 4) { hdrs.push(("cookie".into(), b"c=old".to_vec())); }
+    // list-valued / repeated fields: a second Cookie, Authorization or Expect line
+    if rng.chance(1, 6) { hdrs.push(("cookie".into(), b"d=2".to_vec())); if rng.chance(1, 2) { hdrs.push(("cookie".into(), b"e=3".to_vec())); } }
+    if rng.chance(1, 10) { hdrs.push(("authorization".into(), b"second".to_vec())); hdrs.push(("authorization".into(), b"third".to_vec())); }
+    if rng.chance(1, 10) { hdrs.insert(0, ("expect".into(), b"x-quota=strict".to_vec())); hdrs.push(("expect".into(), b"100-continue".to_vec())); }
     let mut line = format!("{} {} {} {}", m, v, uri, hdrs.len());
     for (k, val) in &hdrs {
         line.push_str(&format!(" {} {}", k, hx(val)));
@@ -220,8 +227,11 @@ pub fn c09(cx: &mut Ctx) {
     // exhaustive short histories over a small menu: every op of every state, incl. premature advance
     let reqs = ["GET HTTP/1.1 http://a.test/ 0", "POST HTTP/1.1 http://a.test/ 1 content-length 33",
                 "PUT HTTP/1.1 http://a.test/ 1 expect 3130302d636f6e74696e7565", "HEAD HTTP/1.0 http://a.test/ 0",
-                "POST HTTP/1.0 http://a.test/ 0", "DELETE HTTP/1.1 http://a.test/ 1 expect 3130302d636f6e74696e7565"];
-    let streams: [&[u8]; 6] = [b"HTTP/1.1 200 OK\r\nContent-Length: 3\r\n\r\nabcHTTP/1.1", b"HTTP/1.1 100 Continue\r\n\r\nHTTP/1.1 302 F\r\nLocation: /n\r\nTransfer-Encoding: chunked\r\n\r\n1\r\nx\r\n0\r\n\r\n",
+                "POST HTTP/1.0 http://a.test/ 0", "DELETE HTTP/1.1 http://a.test/ 1 expect 3130302d636f6e74696e7565",
+                "GET HTTP/1.1 http://a.test/ 3 cookie 613d31 cookie 623d32 authorization 73",
+                "POST HTTP/1.1 http://a.test/ 3 expect 782d713d31 content-length 33 expect 3130302d636f6e74696e7565"];
+    let streams: [&[u8]; 8] = [b"HTTP/1.1 102 Processing\r\n\r\nHTTP/1.1 200 OK\r\nContent-Length: 0\r\n\r\n",
+        b"HTTP/1.1 302 F\r\nLocation: /n\r\nContent-Length: 0\r\n\r\nHTTP/1.1 200 OK\r\nContent-Length: 0\r\n\r\n",b"HTTP/1.1 200 OK\r\nContent-Length: 3\r\n\r\nabcHTTP/1.1", b"HTTP/1.1 100 Continue\r\n\r\nHTTP/1.1 302 F\r\nLocation: /n\r\nTransfer-Encoding: chunked\r\n\r\n1\r\nx\r\n0\r\n\r\n",
         b"HTTP/1.1 403 Forbidden\r\n\r\n", b"HTTP/1.0 200 OK\r\n\r\nclose delimited", b"HTTP/1.1 301 M\r\nContent-Length: 0\r\n\r\n", b"HTTP/1.1 417 E\r\nX: y\r\nContent-Length: 0\r\n\r\n"];
     let menu: Vec<&str> = vec!["proceed", "proceed!", "canproceed", "write 1000", "write 9", "despite", "bwrite 616263 100", "bwrite - 100", "direct 3", "keep100", "READ", "follow never", "close?", "status"];
     let depth = if cx.thorough { 5 } else { 4 };
@@ -254,6 +264,35 @@ pub fn c09(cx: &mut Ctx) {
                     if text.starts_with("read100") && p[0] == "count" { soff += p[1].parse::<usize>().unwrap_or(0); }
                     if text.starts_with("resp") && p[0] == "resp" { soff += p[1].parse::<usize>().unwrap_or(0); }
                     if text.starts_with("bread") && p[0] == "bytes" { soff += p[1].parse::<usize>().unwrap_or(0); }
+                }
+            }
+        }
+    }
+    // a second hop: the flow as_new_flow returns is used to completion (request with repeated / list-valued
+    // fields among those a redirect drops)
+    for req in ["GET HTTP/1.1 http://a.test/ 3 cookie 613d31 cookie 623d32 x-a 31",
+                "POST HTTP/1.1 http://a.test/ 4 authorization 73 content-length 33 authorization 74 cookie 63",
+                "GET HTTP/1.0 http://a.test/p 1 cookie 613d31"] {
+        for status in [301u16, 303, 307] {
+            for pol in ["never", "samehost"] {
+                cx.case("hop2");
+                if cx.rec.new_flow(req) != "ok" { continue; }
+                cx.op("proceed"); cx.op("write 1000"); cx.op("proceed");
+                if cx.rec.state() == "sendBody" { cx.op("bwrite 616263 100"); cx.op("proceed"); }
+                cx.op(&format!("resp {}", hx(format!("HTTP/1.1 {} R\r\nLocation: /next?q=1\r\nContent-Length: 0\r\n\r\n", status).as_bytes())));
+                cx.op("proceed");
+                if cx.rec.state() != "redirect" { continue; }
+                cx.op(&format!("follow {}", pol));
+                if cx.rec.state() != "prepare" { continue; }
+                cx.op("proceed");
+                cx.op("write 1000");
+                cx.op("canproceed");
+                cx.op("write 1000");
+                cx.op("proceed");
+                if cx.rec.state() == "recvResponse" {
+                    cx.op(&format!("resp {}", hx(b"HTTP/1.1 200 OK\r\nContent-Length: 0\r\n\r\n")));
+                    cx.op("proceed");
+                    cx.op("close?");
                 }
             }
         }
@@ -319,6 +358,19 @@ pub fn c10(cx: &mut Ctx) {
                     let req = format!("GET {} http://a.test/p 0", reqv);
                     c10_exchange(cx, &req, 0, head.as_bytes());
                 }
+            }
+        }
+    }
+    // a bare informational response other than 100 while awaiting 100 is "a non-100 response"
+    for interim in ["HTTP/1.1 101 Switching\r\n\r\n", "HTTP/1.1 102 Processing\r\n\r\n", "HTTP/1.0 199 \r\n\r\n", "HTTP/1.1 103\r\n\r\n", "HTTP/1.1 100 Continue\r\n\r\n"] {
+        for (m, despite) in [("POST", false), ("PUT", false)] {
+            for fin in ["HTTP/1.1 200 OK\r\nContent-Length: 0\r\n\r\n", "HTTP/1.1 302 F\r\nLocation: /n\r\nContent-Length: 0\r\n\r\n"] {
+                let _ = despite;
+                cx.case("bare1xx");
+                let req = format!("{} HTTP/1.1 http://a.test/p {}", m, super::hdrs(&[("content-length", b"5"), ("expect", b"100-continue")]));
+                let mut stream = interim.as_bytes().to_vec();
+                stream.extend_from_slice(fin.as_bytes());
+                c10_exchange(cx, &req, 3, &stream);
             }
         }
     }
@@ -513,6 +565,40 @@ pub fn c12(cx: &mut Ctx) {
                     }
                     cx.op("canproceed");
                     cx.op("proceed");
+                }
+            }
+        }
+    }
+    // (7) hostile Location values, then as_new_flow and the flow it returns: errors are fine, panics are not
+    let locs: [&[u8]; 26] = [b"", b" ", b"\t", b"#", b"#frag", b"?", b"?q", b"/", b"//", b"///", b"//b.test", b":", b"://", b"http:", b"http://",
+        b"http://[::1", b"http://a.test:99999999999/", b"\\x", b"%", b"%zz", b"..", b"../../../..", b"\xff\xfe", b"http://\xe9.test/", b"a\x00b", b"HTTP://B.TEST:80/../%2e%2e/x?y#z"];
+    for loc in locs {
+        for status in [301u16, 307] {
+            for m in ["GET", "HEAD", "DELETE", "OPTIONS"] {
+                cx.case("hostloc");
+                cx.rec.new_flow(&format!("{} HTTP/1.1 http://a.test/d/e?k=1 1 cookie 613d31", m));
+                cx.op("proceed"); cx.op("write 2000"); cx.op("proceed");
+                let mut head = format!("HTTP/1.1 {} R\r\nLocation:", status).into_bytes();
+                head.extend_from_slice(loc);
+                head.extend_from_slice(b"\r\nContent-Length: 0\r\n\r\n");
+                cx.op(&format!("resp {}", hx(&head)));
+                cx.op("proceed");
+                if cx.rec.state() != "redirect" { continue; }
+                cx.op("follow never");
+                if cx.rec.state() == "prepare" {
+                    cx.op("uri?");
+                    cx.op("proceed"); cx.op("write 2000"); cx.op("proceed");
+                    if cx.rec.state() == "recvResponse" {
+                        let mut h2 = b"HTTP/1.1 302 R\r\nLocation: ".to_vec();
+                        h2.extend_from_slice(loc);
+                        h2.extend_from_slice(b"\r\nContent-Length: 0\r\n\r\n");
+                        cx.op(&format!("resp {}", hx(&h2)));
+                        cx.op("proceed");
+                        if cx.rec.state() == "redirect" { cx.op("follow samehost"); cx.op("follow2 never"); }
+                    }
+                } else {
+                    cx.op("proceed");
+                    cx.op("close?");
                 }
             }
         }
